@@ -71,6 +71,8 @@ package node_manager
 //@   ensures[c32-consumed] err == nil && r0 ==> Store[sk] == None
 //@   ensures[c32-kept] err == nil && !r0 ==> Store[sk] != None
 //@   ensures[c32-error] err != nil ==> Store == old(Store)
+//@   -- the approver looked up for a consensus peer is the address derived from that peer's own public key (the pool map key)
+//@   assert[c32-counted-address] after "_, ok := consensusSigns.SignsMap[types.AddressFromPubKey(publicKey)]" : ok <==> has(consensusSigns.SignsMap, addrOfKey(pubKeyOfBytes(hexDecode(key))))
 //@   loop 1 invariant 0 <= num && num <= sum && sum <= it1
 
 //@ func GetCurConOperator
